@@ -448,7 +448,7 @@ func genFieldsCase(rt *rapid.T) ClassCase {
 
 func runFields(t *testing.T) {
 	H.Rule("fields", "rapid: a base class whose prototype/constructor carry accessors (get+set, get only), methods and constructor-assigned properties installed without class syntax, and one or two (derived) classes built from a class IR: instance/static fields {initialised, declaration-only `x: T;`, `declare x`, `x!`, `x?`} with identifier / string / numeric / computed-literal / #private names and TypeScript modifiers, initialisers with side effects, reads of earlier fields through `this` and arrow functions capturing `this`, static blocks between static fields, implicit or explicit constructors (code before super(), parameter properties, parameter defaults), a subclass redeclaring names; × tsconfig {useDefineForClassFields true/false, or unset with a tsconfig target on either side of ES2022, or both (explicit wins)} × esbuild target {esnext…es2015} × minify. The IR is printed as TypeScript and as the JavaScript that TypeScript defines: define semantics = native class fields (declaration-only fields define undefined, `declare` fields emit nothing, parameter properties are declared first); assign semantics = assignments after super() in source order after the parameter-property assignments, declaration-only fields emit nothing, static fields become assignments in source order with the static blocks. Oracle: V8 trace of esbuild's output == V8 trace of that JavaScript (own keys in creation order with full descriptors, setter/getter calls, side-effect order, exceptions). Excluded by construction: neither useDefineForClassFields nor a tsconfig target (esbuild documents a default different from tsc), instance fields next to parameter properties under define semantics, side effects in parameter defaults under define semantics (C05's known field-initialiser/parameter order finding) or next to #private instance fields (their order depends on whether the private field is lowered, which tsc decides from the tsconfig target and esbuild from its own target), side effects in field keys (type errors in TypeScript). non-trivial = ≥3 events and the JavaScript meaning under the opposite field semantics has a different trace (the case tells define from assign)")
-	H.SetupRapid("fields", H.N(2000, 100000))
+	H.SetupRapid("fields", H.N(2000, 40000))
 	rapid.Check(t, func(rt *rapid.T) {
 		c := genFieldsCase(rt)
 		H.Report(rt, "fields", c.TS+c.tsconfigRaw()+c.EsTarget+c.Minify, c, judgeClass(c))
